@@ -23,6 +23,8 @@ var c15Base = []string{
 	"T // comment ; here\n| count",
 	"T | count // trailing ; comment",
 	"let x = 0x1f; T | take x",
+	"T | where a == 0xFFFFFFFFFFFFFFFF; U | take 0x1000000000000000; V | where b > 18446744073709551615;W",
+	"T | take 9223372036854775808;let big = 0x8000000000000000;U | where 1e308 > a;",
 	"T | where (a == 1; U | count",
 	"T | where a[1; U | where f(b; V",
 	"T | join (U; V) on k; W",
